@@ -270,12 +270,12 @@ func genBatch(rng *rand.Rand, next *int64, sz int, holes bool) *Batch {
 	return b
 }
 
-func controlBatch(rng *rand.Rand, next *int64, pid int64, typ int) *Batch {
+func controlBatch(rng *rand.Rand, next *int64, pid int64, typ int, epoch int16) *Batch {
 	key := []byte{0, 0, 0, byte(typ)}
 	if typ == 2 {
 		key = []byte{0, 0, 0, 5}
 	}
-	b := &Batch{First: *next, FirstTs: genTs(rng), PID: pid, Txn: true, Control: true, CtrlType: typ,
+	b := &Batch{First: *next, FirstTs: genTs(rng), PID: pid, Epoch: epoch, Txn: true, Control: true, CtrlType: typ,
 		Recs: []Rec{{Key: key, Val: []byte{0, 0, 0, 0, 0, 7}}}}
 	b.MaxTs = b.FirstTs
 	*next++
@@ -309,6 +309,15 @@ func genTxn(rng *rand.Rand, next *int64, n, nb int, allCommit bool) (Log, []Abor
 	// and that transaction commits
 	reuse := int64(0)
 	mustCommit := map[int64]bool{}
+	// producer epochs: data batches carry the producer's current epoch; an abort marker written by the transaction
+	// coordinator (time-out, fencing) carries that epoch + 1, and the producer continues with the bumped epoch
+	epoch := map[int64]int16{}
+	markerEpoch := func(pid int64, typ int) int16 {
+		if typ == 0 && rng.Intn(2) == 0 {
+			epoch[pid]++
+		}
+		return epoch[pid]
+	}
 	closeTxn := func(pid int64) {
 		typ := 1
 		if !allCommit && rng.Intn(2) == 0 && !mustCommit[pid] {
@@ -329,7 +338,7 @@ func genTxn(rng *rand.Rand, next *int64, n, nb int, allCommit bool) (Log, []Abor
 			delete(open, pid)
 			delete(firstOff, pid)
 		}
-		l = append(l, Unit{B: controlBatch(rng, next, pid, typ)})
+		l = append(l, Unit{B: controlBatch(rng, next, pid, typ, markerEpoch(pid, typ))})
 	}
 	szs := sizes(rng, n, nb)
 	for _, sz := range szs {
@@ -346,7 +355,7 @@ func genTxn(rng *rand.Rand, next *int64, n, nb int, allCommit bool) (Log, []Abor
 			closeTxn(int64(1 + rng.Intn(k))) // a marker for a producer without data in flight
 		}
 		if allCommit && rng.Intn(10) == 0 {
-			l = append(l, Unit{B: controlBatch(rng, next, int64(1+rng.Intn(k)), 2)}) // control record of a type the client does not know
+			l = append(l, Unit{B: controlBatch(rng, next, int64(1+rng.Intn(k)), 2, 0)}) // control record of a type the client does not know
 		}
 		b := genBatch(rng, next, sz, rng.Intn(4) == 0)
 		if reuse != 0 || (rng.Intn(4) != 0 && (ntx < maxTx || len(open) > 0)) {
@@ -372,7 +381,7 @@ func genTxn(rng *rand.Rand, next *int64, n, nb int, allCommit bool) (Log, []Abor
 					firstOff[pid] = b.First
 				}
 			}
-			b.PID, b.Txn = pid, true
+			b.PID, b.Txn, b.Epoch = pid, true, epoch[pid]
 			open[pid] = append(open[pid], len(l))
 		} else if rng.Intn(3) == 0 {
 			// a non-transactional batch carrying a producer id that also runs transactions (idempotent writes)
@@ -455,6 +464,7 @@ func Crafted(rng *rand.Rand, spec string) Generated {
 	next := int64(100)
 	open := map[int64][]int{}
 	first := map[int64]int64{}
+	epoch := map[int64]int16{}
 	for _, tok := range strings.Fields(spec) {
 		var pid int64
 		if len(tok) > 1 {
@@ -463,7 +473,7 @@ func Crafted(rng *rand.Rand, spec string) Generated {
 		switch tok[0] {
 		case 'T':
 			b := genBatch(rng, &next, 2, false)
-			b.PID, b.Txn = pid, true
+			b.PID, b.Txn, b.Epoch = pid, true, epoch[pid]
 			if _, ok := open[pid]; !ok {
 				first[pid] = b.First
 			}
@@ -486,7 +496,10 @@ func Crafted(rng *rand.Rand, spec string) Generated {
 				delete(open, pid)
 				delete(first, pid)
 			}
-			g.Log = append(g.Log, Unit{B: controlBatch(rng, &next, pid, typ)})
+			if typ == 0 && rng.Intn(2) == 0 {
+				epoch[pid]++ // coordinator-initiated abort
+			}
+			g.Log = append(g.Log, Unit{B: controlBatch(rng, &next, pid, typ, epoch[pid])})
 		}
 	}
 	if err := g.Log.Encode(); err != nil {
